@@ -178,6 +178,16 @@ class C11(Prop):
                     if got != want:
                         ctx.fail("C11.pda.lang", form=form, missing=sorted(want - got)[:3], extra=sorted(got - want)[:3],
                                  result=x.value.describe())
+        if case[0] == "cfg":
+            # the grammar (and whatever it caches) must be unaffected: intersecting it with everything gives it back
+            r = ctx.call(left.intersection, Regex("(a|b|c)*"))
+            if ctx.returns(r, "C11.cfg.intersection", what="with (a|b|c)* afterwards"):
+                x = ctx.call(O.extract_cfg, r.value)
+                if ctx.returns(x, "C11.cfg.extract"):
+                    got = x.value.lang_upto(n)
+                    if got != ref["ll"]:
+                        ctx.fail("C11.operands_unchanged", what="L(g & (a|b|c)*) after the intersection differs from L(g)",
+                                 missing=sorted(ref["ll"] - got)[:3], extra=sorted(got - ref["ll"])[:3])
         snap_l2 = (O.extract_cfg(left).prods if case[0] == "cfg" else O.extract_pda(left).trans)
         ok = snap_l == snap_l2 and (snap_r is None or snap_r == O.extract_fa(right).trans)
         ctx.expect(ok, "C11.operands_unchanged")
